@@ -1,5 +1,6 @@
 """C13 — a termination signal at any instant leaves a consistent, resumable state."""
 import ast
+import json
 import hashlib
 import itertools
 import os
@@ -331,6 +332,20 @@ def reasons(st, n):
     return out
 
 
+def known_increment_sites():
+    """the statements of _NSIntegralState.increment at which an interrupt is part of the KNOWN finding F4 (listed, by their
+    text, in known_findings.json): an unsafe instant at any other statement of increment is a different violation (seeded
+    change C13-hB moved the first mutation of increment in front of the monotonicity check)"""
+    try:
+        d = json.loads((core.VERIF / "known_findings.json").read_text())
+        for f in d["findings"]:
+            if f.get("id") == "F4":
+                return set(f.get("sites_inside_increment", []))
+    except Exception:  # noqa
+        pass
+    return set()
+
+
 def in_window(done):
     """the known window: after the first mutation inside state.increment (done = 1.5 stands for "inside increment")
     up to and including the insertion-index append"""
@@ -534,6 +549,8 @@ def correspond(ctx):
     nconf = ctx.scale(3, 20)
     mlines, impls, cases = [], [], []
     window_hits = 0
+    sites = known_increment_sites()
+    ev_src = (core.REPO / "nessai" / "evidence.py").read_text()
     for c in range(nconf):
         nlive = rng.choice([10, 11, 13])
         keys = sorted(rng.choice(range(2, 30, 2)) for _ in range(nlive))     # ties possible
@@ -553,11 +570,11 @@ def correspond(ctx):
         cand2 = (max(live_keys) + 9, next(ids))
         for (ln, fn, done) in lines:
             case = {"nlive": nlive, "init": init, "pre": pre, "cand": cand, "cand2": cand2, "line": ln, "fn": fn,
-                    "mutating_statements_done": done, "source": src.splitlines()[ln - 1].strip()}
+                    "mutating_statements_done": done, "source": (ev_src if fn == "increment" else src).splitlines()[ln - 1].strip()}
             try:
                 res = interrupt_run(ctx, nlive, init, pre, cand, cand2, ln, fn, done)
             except ResumeFailed as e:
-                key = KEY_F4 if in_window(done) else f"NestedSampler.{fn}:resume-after-signal:raised"
+                key = KEY_F4 if (in_window(done) and (fn != "increment" or case["source"] in sites)) else f"NestedSampler.{fn}:resume-after-signal:raised"
                 ctx.oracle_fail(key, f"the checkpoint written by the signal handler cannot be resumed/continued: {e}", case)
                 ctx.case((c, ln), True, kind=f"done={done}:resume-raised")
                 continue
@@ -576,7 +593,7 @@ def correspond(ctx):
             fin_ids = final["nested"]
             ok_final = len(set(fin_ids)) == len(fin_ids) and len(final["evid"]) == len(fin_ids)
             if not (ok and ok_final):
-                inw = in_window(done)
+                inw = in_window(done) and (fn != "increment" or case["source"] in sites)
                 key = KEY_F4 if inw else f"NestedSampler.{fn}:interrupt-outside-known-window"
                 window_hits += inw
                 ctx.oracle_fail(key, "after signal + checkpoint + resume: " + "; ".join(reasons(resumed, nlive) or ["final result records a point twice"]),
@@ -596,6 +613,7 @@ def correspond(ctx):
     ctx.extra["window_lines_inconsistent"] = window_hits
     flow_phase_test(ctx, lines, src)
     exit_code_test(ctx)
+    double_signal_test(ctx)
     populate_interrupt_test(ctx)
     plot_signal_test(ctx)
     ins_test(ctx)
@@ -682,8 +700,11 @@ def flow_phase_test(ctx, lines, src):
                     pass
                 finally:
                     sys.settrace(None)
+                ev_src = (core.REPO / "nessai" / "evidence.py").read_text()
                 case = {"phase": "flow", "line": ln, "fn": fn, "mutating_statements_done": done,
-                        "source": src.splitlines()[ln - 1].strip(), "nlive": nlive}
+                        "source": (ev_src if fn == "increment" else src).splitlines()[ln - 1].strip(), "nlive": nlive}
+                sites = known_increment_sites()
+                inw_known = in_window(done) and (fn != "increment" or case["source"] in sites)
                 if not fired:
                     ctx.case(("flow", ln), False, kind="flow:line-not-reached")
                     continue
@@ -693,7 +714,7 @@ def flow_phase_test(ctx, lines, src):
                     f3.ns.initialise()
                     f3.ns.nested_sampling_loop()
                 except Exception as e:  # noqa: the resumed run itself failed
-                    key = KEY_F4 if in_window(done) else f"NestedSampler.{fn}:resume-after-signal:raised"
+                    key = KEY_F4 if inw_known else f"NestedSampler.{fn}:resume-after-signal:raised"
                     ctx.oracle_fail(key, "flow phase: the checkpoint written by the signal handler cannot be resumed/continued: "
                                     f"{type(e).__name__}: {e}", case)
                     ctx.case(("flow", ln), True, kind=f"flow:done={done}:resume-raised")
@@ -701,7 +722,7 @@ def flow_phase_test(ctx, lines, src):
                 st = real_state(f3.ns)
                 ok = consistent({**st, "live": [(k, i) for k, i in st["live"]]}, nlive)
                 if not ok:
-                    key = KEY_F4 if in_window(done) else f"NestedSampler.{fn}:interrupt-outside-known-window"
+                    key = KEY_F4 if inw_known else f"NestedSampler.{fn}:interrupt-outside-known-window"
                     ctx.oracle_fail(key, "flow phase, after signal + checkpoint + resume + 15 iterations: " + "; ".join(reasons(st, nlive)), case)
                 ctx.case(("flow", ln), True, case if done in (0, 7) and ln % 2 == 0 else None,
                          kind=f"flow:done={done}:{'ok' if ok else 'inconsistent'}")
@@ -753,6 +774,80 @@ def exit_code_test(ctx):
                 ctx.oracle_fail("FlowSampler.safe_exit:exit-code",
                                 f"{signal.Signals(sig).name}: handler exited with {code} (configured {want}), checkpoint written: {has_ckpt}", case)
             ctx.case(("exit-code", int(sig), want, code), True, case, kind="exit-code")
+        finally:
+            shutil.rmtree(tmp, ignore_errors=True)
+
+
+def double_signal_test(ctx):
+    """a SECOND termination signal arriving while the handler of the first is writing its checkpoint ("at any point" includes
+    the handler's own run time; schedulers escalate SIGTERM -> SIGINT, users hit Ctrl-C twice).  The process must still exit
+    with the configured code and leave a complete checkpoint that loads (seeded change C13-hA: a `sys.exit` in a re-entrancy
+    guard unwound the first handler in the middle of the dump)."""
+    combos = [(signal.SIGTERM, signal.SIGINT, 77), (signal.SIGINT, signal.SIGINT, 0)]
+    if not ctx.quick:
+        combos += [(signal.SIGALRM, signal.SIGTERM, 3), (signal.SIGTERM, signal.SIGTERM, 130)]
+    for sig1, sig2, want in combos:
+        tmp = tempfile.mkdtemp(prefix="c13d_")
+        try:
+            pid = os.fork()
+            if pid == 0:
+                try:
+                    import logging
+                    import pickle as _pk
+                    logging.disable(logging.CRITICAL)
+                    import nessai.utils.io as nio
+                    from nessai.flowsampler import FlowSampler
+                    fired = []
+
+                    class Mod:
+                        """stands for the pickle module handed to safe_file_dump.  `pickle.dump` is one C call (Python-level
+                        handlers run between bytecodes), so the second signal is delivered at the first point where a handler
+                        can really run: right after the dump returned, before the temporary file is moved into place"""
+                        @staticmethod
+                        def dump(data, file):
+                            _pk.dump(data, file)
+                            if not fired:
+                                fired.append(True)
+                                os.kill(os.getpid(), sig2)
+
+                    orig = nio.safe_file_dump
+
+                    def dump(data, filename, module, save_existing=False):
+                        return orig(data, filename, Mod, save_existing=save_existing)
+
+                    import nessai.samplers.base as nb
+                    nb.safe_file_dump = dump
+                    fs = FlowSampler(_model(), output=tmp, nlive=10, resume=False, plot=False, exit_code=want, signal_handling=True,
+                                     uninformed_proposal=Scripted, uninformed_proposal_kwargs={"queue": [(k + 2, k + 1) for k in range(10)]},
+                                     maximum_uninformed=np.inf, seed=1, log_on_iteration=False)
+                    fs.ns.initialise(live_points=True)
+                    os.kill(os.getpid(), sig1)
+                    for _ in range(1000):
+                        pass
+                    os._exit(3)
+                except SystemExit as e:
+                    os._exit(int(e.code) if isinstance(e.code, int) else (0 if e.code is None else 4))
+                except BaseException:
+                    os._exit(5)
+            _, status = os.waitpid(pid, 0)
+            code = os.waitstatus_to_exitcode(status)
+            files = sorted(os.listdir(tmp))
+            loads = False
+            for f in files:
+                if f.endswith(".pkl"):
+                    try:
+                        with open(os.path.join(tmp, f), "rb") as fh:
+                            pickle.load(fh)
+                        loads = True
+                    except Exception:  # noqa
+                        pass
+            case = {"first": signal.Signals(sig1).name, "second_during_checkpoint": signal.Signals(sig2).name, "configured_exit_code": want,
+                    "observed": code, "files": files, "complete_checkpoint": loads}
+            if code != want or not loads:
+                ctx.oracle_fail("FlowSampler.safe_exit:second-signal-during-checkpoint",
+                                f"{case['first']} then {case['second_during_checkpoint']} while the checkpoint was being written: exit code "
+                                f"{code} (configured {want}), complete checkpoint on disk: {loads} (files {files})", case)
+            ctx.case(("double-signal", int(sig1), int(sig2), want), True, case, kind="double-signal")
         finally:
             shutil.rmtree(tmp, ignore_errors=True)
 
